@@ -23,19 +23,19 @@ ASSUMPTIONS = ["R6 (vlib/ref/lr.py, cfg.py): membership and trees of the short i
 
 
 def plan(tier, seed):
-    n = 6000 if tier == "quick" else 40000
+    n = 6000 if tier == "quick" else 24000
     L_ = 5 if tier == "quick" else 7
     specs = [{"seed": seed, "chunk": i, "n": 200, "L": L_, "big": False} for i in range(n // 200)]
     # larger grammars (4-6 non-terminals, many unit and epsilon rules: nullability has to travel through forward
     # references over several fixpoint rounds); short inputs only, the weight is on FIRST and on membership of short words
-    m = 4000 if tier == "quick" else 40000
+    m = 4000 if tier == "quick" else 24000
     specs += [{"seed": seed, "chunk": 100000 + i, "n": 200, "L": 3 if tier == "quick" else 4, "big": True} for i in range(m // 200)]
     # wide grammars: 4-5 terminals (lookahead sets that overlap without being equal), 2-4 non-terminals, inputs up to length 4
-    w = 3000 if tier == "quick" else 30000
+    w = 3000 if tier == "quick" else 18000
     specs += [{"seed": seed, "chunk": 200000 + i, "n": 150, "L": 4 if tier == "quick" else 5, "big": "wide"} for i in range(w // 150)]
     # shared-prefix grammars: several alternatives start with the same non-terminal and continue differently, so one state holds
     # items that wait for the same non-terminal with different, overlapping lookahead sets
-    q = 3000 if tier == "quick" else 30000
+    q = 3000 if tier == "quick" else 18000
     specs += [{"seed": seed, "chunk": 300000 + i, "n": 150, "L": 4 if tier == "quick" else 5, "big": "prefix"} for i in range(q // 150)]
     # textbook recursive grammars with long, deeply nested inputs (up to ~1200 levels)
     specs += [{"seed": seed, "chunk": 400000 + i, "n": len(CLASSIC), "L": 3, "big": "classic"} for i in range(4 if tier == "quick" else 40)]
